@@ -67,7 +67,7 @@ def evaluate(run, cases, name, conventions=('canon', 'raw'), invariants=('Symmet
                 if conv == 'raw' and not sign_sensitive(c):
                     continue
                 expanded.append(dict(c, conv=conv, base=n))
-        pairs = EC.evaluate(expanded, K, name, run, spec='MC_Assembly', invariants=invariants, max_retry=12)
+        pairs = EC.evaluate(expanded, K, name, run, spec='MC_Assembly', invariants=invariants, max_retry=80)
         out = {}
         for c, obs in pairs:
             out.setdefault(c['base'], []).append(obs)
